@@ -12,7 +12,7 @@
    accesses ordered by one sync.Mutex are sequentially consistent (the DRF guarantee of the Go memory model), not by
    observing memory. *)
 From Coq Require Import String List Arith Bool Permutation.
-From Crem Require Import Serialise SerialiseCorr SerialiseProofs.
+From Crem Require Import Serialise SerialiseCorr SerialiseProofs SerialiseSched.
 Import ListNotations.
 
 (* ---- the serialisation theorem: all thread counts, all body lengths, all schedules ---- *)
@@ -54,6 +54,20 @@ Proof. exact locked_progress. Qed.
 Theorem C16_executions_finite : forall (St Lc : Type) (c0 : cfg St Lc) tr c,
   exec c0 tr c -> length tr + measure c <= measure c0.
 Proof. exact exec_bounded. Qed.
+
+(* Conversely every one-at-a-time order IS realised by a completed execution (deferred Unlock; handlers may panic): the
+   hypotheses of [C16_serialisable] are satisfiable for every program and every order, and the lock-wrapped executions
+   attain exactly the serial outcomes. *)
+Theorem C16_every_order_realisable : forall (St Lc : Type) (progs : list (prog St Lc)) (s0 : St) ord,
+  Permutation ord (seq 0 (length progs)) ->
+  exists tr c, exec (init true progs s0) tr c /\ all_done c = true /\ acq_order tr = ord.
+Proof. exact every_order_realisable. Qed.
+
+Theorem C16_serial_outcomes_attained : forall (St Lc : Type) (progs : list (prog St Lc)) (s0 : St) ord,
+  Permutation ord (seq 0 (length progs)) ->
+  exists tr c, exec (init true progs s0) tr c /\ all_done c = true /\
+               sh c = fst (serial progs ord s0) /\ results c = snd (serial progs ord s0).
+Proof. exact serial_outcomes_attained. Qed.
 
 (* ---- instantiation to the code: the thread of a request is what the translated facts say ServeHTTP is ---- *)
 
@@ -157,6 +171,8 @@ Print Assumptions C16_actions_hold_the_mutex.
 Print Assumptions C16_mutual_exclusion.
 Print Assumptions C16_no_deadlock.
 Print Assumptions C16_executions_finite.
+Print Assumptions C16_every_order_realisable.
+Print Assumptions C16_serial_outcomes_attained.
 Print Assumptions C16_engine_serialisable_partial.
 Print Assumptions C16_engine_synchronised_partial.
 Print Assumptions C16_engine_no_deadlock_partial.
